@@ -187,11 +187,111 @@ gen.SEEDS["c07_lists"] = [
 ]
 
 
+# A seed document with EMPTY columns: formula columns whose formula text is empty (what the UI
+# creates as a new column).  Their cells hold the default of the column's type, so the value of such
+# a cell is a function of (type, formula) alone; other formulas read them, and some rows exist.
+gen.SEEDS["c07_empty"] = [
+  [["AddTable", "Items", [
+    _col("name", "Text"), _col("qty", "Int"),
+    _col("note", "Any", "", isFormula=True), _col("cnt", "Int", "", isFormula=True),
+    _col("label", "Text", "", isFormula=True),
+    _col("double", "Int", "$qty * 2"),
+    _col("uses", "Any", "[$note, $cnt, $label]"),
+    _col("five", "Int", "5"),
+  ]]],
+  [["BulkAddRecord", "Items", [None, None, None], {"name": ["a", "b", "c"], "qty": [1, 2, 3]}]],
+  [["AddColumn", "Items", "blank", {}]],        # exactly what the UI sends for a new column
+]
+
+# Formulas that read nothing: their value depends on the column's type and formula text only.
+CONSTANT_FORMULAS = ["", "", "", "None", "5", "'x'", "1.5", "True", "[1, 2]", "return 7", "1/0"]
+EMPTY_TYPES = ["Any", "Int", "Numeric", "Text", "Bool", "Choice", "ChoiceList", "Date"]
+
+
+def reads_nothing(formula):
+  """True when the formula text names nothing at all (no $col, rec, table, function): empty, a
+  literal, arithmetic on literals, or text that does not parse.  Such a cell's value is determined
+  by the column's type and formula alone - no other cell can make it stale."""
+  import ast
+  src = re.sub(r"\$([A-Za-z_]\w*)", r"rec.\1", formula or "")
+  for text in (src, "def _f():\n" + "\n".join("  " + l for l in src.split("\n"))):
+    try:
+      tree = ast.parse(text)
+    except (SyntaxError, ValueError):
+      continue
+    return not any(isinstance(n, ast.Name) for n in ast.walk(tree))
+  return True
+
+
 class C07Monitor(explore.Monitor):
   seeds = ("basic", "refs", "lookup", "summary", "twoway", "twoway_list", "trigger", "prevnext",
-           "choices", "c07_lists")
+           "choices", "c07_lists", "c07_empty")
   length = 8
   weights = {"modify_type": 7, "update": 14, "bulk_update": 7, "add": 10, "invalid": 1}
+
+  # -- generation: the default mix plus the life cycle of empty / constant formula columns ---------
+  def empty_column_bundle(self, e, g):
+    """Bundles around columns whose formula reads nothing (empty formula = the UI's new column):
+    create one, clear a formula, turn a data column into one, change its type, re-create it under
+    the same name with another type (in one bundle or as the start of two), type data into it."""
+    rng = g.rng
+    tabs = g.doc(e)
+    dts = [t for t in g.data_tables(tabs)]
+    if not dts: return None
+    with_const = [(t, c) for t in dts for c in tabs[t][0]
+                  if c[2] and c[0] != "manualSort" and reads_nothing(c[3])]
+    new_type = lambda old=None: rng.choice([x for x in EMPTY_TYPES if x != old])
+    shape = rng.choice(["add", "add", "clear", "to_empty", "retype", "retype", "retype",
+                        "recreate", "recreate", "fill", "set_constant"])
+    if shape in ("retype", "recreate", "fill", "set_constant") and not with_const:
+      shape = "add"
+    if shape == "add":
+      t = rng.choice(dts)
+      if len(tabs[t][0]) >= 10: return None
+      name = rng.choice(["e", "blank", "note", "x", "New Col"])
+      info = {} if rng.random() < 0.3 else {"type": new_type(), "isFormula": True,
+                                            "formula": rng.choice(CONSTANT_FORMULAS)}
+      return [["AddColumn", t, name, info]]
+    if shape == "clear":
+      cands = [(t, c) for t in dts for c in tabs[t][0] if c[2] and c[3] and c[0] != "manualSort"]
+      if not cands: return None
+      t, c = rng.choice(cands)
+      return [["ModifyColumn", t, c[0], {"formula": ""}]]
+    if shape == "to_empty":
+      cands = [(t, c) for t in dts for c in tabs[t][0] if not c[2] and c[0] != "manualSort"]
+      if not cands: return None
+      t, c = rng.choice(cands)
+      return [["ModifyColumn", t, c[0], {"isFormula": True, "formula": ""}]]
+    t, c = rng.choice(with_const)
+    if shape == "retype":
+      info = {"type": new_type(c[1])}
+      if rng.random() < 0.15: info["formula"] = c[3]          # same text sent along
+      return [["ModifyColumn", t, c[0], info]]
+    if shape == "recreate":
+      again = ["AddColumn", t, c[0], {"type": new_type(c[1]), "isFormula": True, "formula": c[3]}]
+      if rng.random() < 0.5:
+        return [["RemoveColumn", t, c[0]], again]
+      later = [[again]]
+      if rng.random() < 0.3:      # a data edit in between does not rebuild the schema
+        later.insert(0, [["AddRecord", t, None, {}]])
+      return ("THEN", [["RemoveColumn", t, c[0]]], later)
+    if shape == "set_constant":
+      return [["ModifyColumn", t, c[0], {"formula": rng.choice(CONSTANT_FORMULAS)}]]
+    # fill: typing a value into an empty column turns it into a data column
+    rows = tabs[t][1]
+    if not rows: return [["AddRecord", t, None, {c[0]: rng.choice(gen.values_for(c[1], rng))}]]
+    return [["UpdateRecord", t, rng.choice(rows), {c[0]: rng.choice(gen.values_for(c[1], rng))}]]
+
+  def gen_bundle(self, st, e, g):
+    if st.get("todo"):
+      return st["todo"].pop(0)
+    if g.rng.random() < 0.22:
+      b = self.empty_column_bundle(e, g)
+      if isinstance(b, tuple):
+        st["todo"] = b[2]
+        return b[1]
+      if b: return b
+    return g.bundle(e)
 
   def start(self, e, seed_name):
     st = {"types": {}, "first": self.after({}, e, [], True, None)}   # the seed document itself
@@ -227,7 +327,8 @@ class C07Monitor(explore.Monitor):
     except Exception as ex:
       rdiff = ["raw reopen failed: %r" % (ex,)]
     detail = {"stored": stored[:6], "diff": d, "col_types": types,
-              "round_trip_faithful": bool(explained), "encoded_vs_raw_reopen": rdiff}
+              "round_trip_faithful": bool(explained), "encoded_vs_raw_reopen": rdiff,
+              "input_free": input_free_columns(e, d, stored)}
     clause = "C07.no_stored_actions" if stored else "C07.same_data"
     if not explained:
       try:
@@ -246,6 +347,13 @@ class C07Monitor(explore.Monitor):
     if clause == "C07.loads":
       return "loads|" + detail.get("error", "").split(":")[0]
     if detail.get("round_trip_faithful"):
+      # "The live formula values were stale" is C05's subject only when some OTHER cell could have
+      # made them stale.  A differing formula cell whose formula reads nothing (empty formula,
+      # literal) is a function of its column's type and formula text: no missed invalidation
+      # explains it, so it gets a class of its own.
+      if detail.get("input_free"):
+        return "live-value-of-input-free-formula-differs|" + ",".join(
+          sorted(set(x.split(" ", 1)[1] for x in detail["input_free"])))
       return "live-formula-values-were-stale(C05)"
     if detail.get("delta"):
       return "round-trip-changes|" + detail["delta"]
@@ -310,6 +418,37 @@ def loaded_delta(e, saved, limit=8):
           out.add(what)
           if len(out) >= limit: return sorted(out)
   return sorted(out)
+
+
+def input_free_columns(e, diff_lines, stored):
+  """['Table.col <kind>'] for the formula columns among the differing cells (diff lines and the
+  cells Calculate stored) whose formula reads nothing; kind = empty-formula / constant-formula /
+  unparsable-formula."""
+  cols = set()
+  for line in diff_lines:
+    m = describe_cell_diff(line)
+    if m: cols.add((m[0], m[1]))
+  for a in stored:
+    if a[0] in ("BulkUpdateRecord", "UpdateRecord", "BulkAddRecord", "AddRecord") and \
+        not str(a[1]).startswith("_grist_") and isinstance(a[3], dict):
+      cols.update((a[1], c) for c in a[3])
+  out = []
+  for (t, c) in sorted(cols):
+    if not _is_formula(e, t, c): continue
+    try:
+      f = e.schema[t].columns[c].formula
+    except Exception:
+      continue
+    if reads_nothing(f):
+      kind = "empty-formula" if not (f or "").strip() else "constant-formula"
+      try:
+        import ast
+        src = re.sub(r"\$([A-Za-z_]\w*)", r"rec.\1", f or "") or "pass"
+        ast.parse("def _f():\n" + "\n".join("  " + l for l in src.split("\n")))
+      except (SyntaxError, ValueError):
+        kind = "unparsable-formula"
+      out.append("%s.%s %s" % (t, c, kind))
+  return out
 
 
 def _canon(action_reprs):
